@@ -18,7 +18,9 @@
 (*   expr [paths, oidss]      several paths in ONE expression (`.word p1 + p2', the same symbol may occur twice)          *)
 (*   ifdef [path, oids, body] `.if defined(path) { body }' (the operand of defined() is an occurrence like any other)     *)
 (*   var [name, oid]          `.var name = 1'; a later `.var name = 2' in the same scope assigns to the SAME symbol: the   *)
-(*                            first statement is its definition, later ones are occurrences of it                          *)
+(*                            first statement is its definition, later ones are occurrences of it.  Variables are          *)
+(*                            SEQUENTIAL: every pass starts without them, so a variable is visible only from its first     *)
+(*                            assignment on in walk order (ord); a path in front of it resolves as if it did not exist     *)
 (*   loop [path, oids, sid, body]  `.loop path { body }': the count is an ordinary use; the body is a scope that defines    *)
 (*                            `index' (which has no definition site: NoNode)                                               *)
 (*   pad [n]                  n comment lines (layout only)                                                                *)
@@ -79,7 +81,7 @@ DefsOf(prog, scope, files, md) ==
                [] s.k = "if0" -> DefsOf(s.body, scope, files, md)
                [] s.k = "ifelse" -> DefsOf(s.then, scope, files, md) @@ DefsOf(s.else, scope, files, md)
                [] s.k = "ifdef" -> DefsOf(s.body, scope, files, md)
-               [] s.k = "var" -> (Key(scope, <<s.name>>) :> Ent(s.oid, scope, Append(scope, s.name), "const"))     \* @@ keeps the first one
+               [] s.k = "var" -> (Key(scope, <<s.name>>) :> Ent(s.oid, scope, Append(scope, s.name), "var"))       \* @@ keeps the first one
                [] s.k = "loop" -> (Key(Append(scope, s.sid), <<"index">>) :> EntA(NoNode, Append(scope, s.sid), Append(scope, s.sid) \o <<"index">>, "const", NoNode))
                                   @@ DefsOf(s.body, Append(scope, s.sid), files, md)
                [] s.k = "macrodef" -> (Key(scope, <<s.name>>) :> Ent(s.oid, scope, Append(scope, s.name), "macro"))
@@ -185,7 +187,16 @@ OccsOf(prog, scope, file, files, tab, md) ==
                [] OTHER -> {}
        IN here \cup OccsOf(Tail(prog), scope, file, files, tab, md)
 
-Project(files, main) == LET md == MacroStmts(files[main], <<>>)
+(* the table an occurrence sees: without the variables whose first assignment comes later in walk order *)
+TabAt(tab, ord, oid) == [k \in {k \in DOMAIN tab : ~(tab[k].kind = "var" /\ ord[tab[k].oid] > ord[oid])} |-> tab[k]]
+LaterVar(tab, ord, oid) == \E k \in DOMAIN tab : tab[k].kind = "var" /\ ord[tab[k].oid] > ord[oid]
+Resee(tab, ord, o) ==        \* a path occurrence resolved again in the table it really sees
+  IF o.def \/ o.call \/ o.seg = 0 \/ o.node = NoNode \/ ~LaterVar(tab, ord, o.oid) THEN o
+  ELSE LET r == Resolve(TabAt(tab, ord, o.oid), o.scope, o.path) IN
+       [o EXCEPT !.node = IF r.ok THEN r.oids[o.seg] ELSE -1, !.sp = IF r.ok THEN r.sps[o.seg] ELSE -1]
+
+ProjectO(files, main, ord) ==
+                        LET md == MacroStmts(files[main], <<>>)
                             tab == DefsOf(files[main], <<>>, files, md)
                             occs0 == OccsOf(files[main], <<>>, main, files, tab, md)
                             called == {o.node : o \in {x \in occs0 : x.call}}
@@ -197,7 +208,8 @@ Project(files, main) == LET md == MacroStmts(files[main], <<>>)
                          mav |-> \E o \in occs0 : ~o.def /\ ~o.call /\ o.node \in {md[k].oid : k \in DOMAIN md},
                          (* ... and a macro's name used as a value (possible only in code that is never assembled) denotes nothing *)
                          occs |-> {IF (o.scope # <<>> /\ o.scope[Len(o.scope)] \in dead) \/ (~o.def /\ ~o.call /\ o.node \in {md[k].oid : k \in DOMAIN md})
-                                     THEN [o EXCEPT !.node = NoNode, !.sp = NoNode] ELSE o : o \in occs0}]
+                                     THEN [o EXCEPT !.node = NoNode, !.sp = NoNode] ELSE Resee(tab, ord, o) : o \in occs0}]
+Project(files, main) == ProjectO(files, main, [i \in 0..400 |-> i])          \* design-level models: oids are in walk order
 ErrorFree(P) == \A o \in P.occs : o.node # -1
 NodeOf(P, oid) == LET S == {o \in P.occs : o.oid = oid} IN IF S = {} THEN -1 ELSE (CHOOSE o \in S : TRUE).node
 OccOf(P, oid) == CHOOSE o \in P.occs : o.oid = oid
@@ -255,6 +267,11 @@ OidsOfKind(prog, kind) ==
 SpecialOids(files, kind) == UNION {OidsOfKind(files[f], kind) : f \in DOMAIN files}
 ReassignedVars(P) == {o.node : o \in {x \in P.occs : x.seg = 0}}
 
+(* variables of the project; witness of `RemovedSymbolKeepsDefinition': the symbol table re-uses the index of a symbol it  *)
+(* removed at the start of a pass (all variables are), the analysis keeps its record under that index                    *)
+VarNodes(P) == {P.tab[k].oid : k \in {k \in DOMAIN P.tab : P.tab[k].kind = "var"}}
+SeveralVars(P, d) == d \in VarNodes(P) /\ Cardinality(VarNodes(P)) >= 2
+
 (* the tokens of aliased items `a as x' of the (top-level) selective imports: witness of a recorded deviation only *)
 AliasedItems(prog) == UNION {{prog[i].items[j] : j \in {j \in 1..Len(prog[i].items) : prog[i].items[j].alias # ""}} :
                               i \in {i \in 1..Len(prog) : prog[i].k = "import"}}
@@ -291,13 +308,14 @@ RenameFiles(files, S, new) == [f \in DOMAIN files |-> RenameProg(files[f], S, ne
 (* The rename is capture-free when no key it creates exists already and every occurrence still denotes its node:   *)
 (* only then does the property demand an unchanged build (a name that exists in *another* scope may still collide   *)
 (* with nothing; one that shadows or is shadowed changes meanings whatever the edit, and C15 is silent there).       *)
-CaptureFree(files, main, oid, new) ==
-  LET P  == Project(files, main)
+CaptureFreeO(files, main, oid, new, ord) ==
+  LET P  == ProjectO(files, main, ord)
       d  == NodeOf(P, oid)
-      P2 == Project(RenameFiles(files, RenameSet(P, oid), new), main) IN
+      P2 == ProjectO(RenameFiles(files, RenameSet(P, oid), new), main, ord) IN
   /\ \A k \in DOMAIN P.tab : P.tab[k].sp = SpOf(P, oid) => Key(P.tab[k].at, <<new>>) \notin DOMAIN P.tab
   /\ \A o \in P.occs : NodeOf(P2, o.oid) = o.node
   (* an alias renamed to the name of its own symbol (or the reverse) merges two spelling groups of one node: afterwards *)
   (* "the old name" no longer identifies a group, so the round trip is not demanded there                                *)
   /\ \A o \in P.occs : (o.node = d /\ o.sp # SpOf(P, oid)) => o.name # new
+CaptureFree(files, main, oid, new) == CaptureFreeO(files, main, oid, new, [i \in 0..400 |-> i])
 ================================================================================
